@@ -424,6 +424,12 @@ class Compiler:
                 if not issubclass(c_expr.dtype, collections.abc.Hashable):
                     raise CompilationError(f'GROUP-BY a non-hashable type is not supported: "{column}"')
 
+            # Targets computing the same expression as a GROUP-BY expression
+            # are covered by it too.
+            for index, c_expr in enumerate(c_target_expressions):
+                if index not in group_indexes and any(c_expr == c_target_expressions[i] for i in group_indexes):
+                    group_indexes.append(index)
+
             # Compile HAVING clause.
             if group_by.having is not None:
                 c_expr = self._compile(group_by.having)
